@@ -407,6 +407,24 @@ def oracle(line, f, model):
             cur_b = None
     stats['removals'] = nrm
     stats['broadcasts'] = nb
+    # which branches of the loop the scenario exercised
+    for k, e in enumerate(H):
+        if e[0] == 'r' and e[2] == 'err':
+            stats['removed:' + e[3]] = stats.get('removed:' + e[3], 0) + 1
+        elif e[0] == 'hb':
+            stats['removed:heartbeat-timeout'] = stats.get('removed:heartbeat-timeout', 0) + 1
+        elif e[0] == 'rm' and k + 1 < len(H) and (H[k + 1][0] == 'adm' or (H[k + 1][0] == 'd' and k + 2 < len(H) and H[k + 2][0] == 'adm')):
+            stats['removed:stale-at-admission'] = stats.get('removed:stale-at-admission', 0) + 1
+        elif e[0] == 'pong':
+            stats['pongs'] = stats.get('pongs', 0) + 1
+        elif e[0] == 'w' and e[2] == 'ping':
+            stats['pings'] = stats.get('pings', 0) + 1
+        elif e[0] == 'o' and e[1] == 'u' and not (k + 1 < len(H) and H[k + 1][0] == 'w'):
+            stats['unicast-to-absent-address'] = stats.get('unicast-to-absent-address', 0) + 1
+        elif e[0] == 'partial':
+            stats['loop-blocked-in-receive'] = 1
+    if f.get('listen_after') == '1':
+        stats['port-still-served-after-run-returned:' + a[4]] = 1
     # --- (E) server-side sends vs drained messages
     sent = {s[3]: s for s in f['S']}
     drained = [e[3] if e[1] == 'u' else e[2] for e in H if e[0] == 'o']
@@ -568,7 +586,7 @@ def run(ctx):
             seen.add(cls)
             ctx.report(case, {'model': mres[:300], 'returned': f['returned'], 'hook_events': len(f['H'])},
                        'C12 oracle', cls=cls, failing_input=failing, what=what)
-    ctx.extra['handler_order_stats_multi_thread'] = tot
+    ctx.extra['loop_branches_and_handler_order_stats'] = tot
     for k in (0, len(lines) // 2, len(lines) - 1):
         if 0 <= k < len(lines) and results[k][1] is not None:
             ctx.sample({'scenario': lines[k], 'model': results[k][2], 'returned_ms': results[k][1]['returned'],
